@@ -59,7 +59,9 @@ REQUIRED_PROBES = {"quick": ["steps_compared", "qr_nontrivial", "sampler_runs", 
 def menu_entry(k):
     r = random.Random(50000 + k)
     kind = ["history", "history", "sampler", "history", "driver", "ladder"][k % 6]
-    m = dict(wt="unrestricted", trial=r.choice(["uhf", "uhf", "noci"]), nelec=r.choice([[2, 1], [2, 2], [1, 1], [3, 1]]), norb=4, nchol=r.choice([1, 2, 3]),
+    norb = r.choice([3, 4, 4, 4, 5])
+    ne = r.choice([[2, 1], [2, 2], [1, 1], [3, 1]]) if norb > 3 else r.choice([[2, 1], [1, 1], [2, 2]])
+    m = dict(wt="unrestricted", trial=r.choice(["uhf", "uhf", "noci"]), nelec=ne, norb=norb, nchol=r.choice([1, 2, 3]),
              dt=STEP_DTS[k % 4], n_exp_terms=r.choice([4, 6, 10]), n_walkers=r.choice([4, 6]), n_batch=r.choice([1, 2]), kind=kind)
     if kind in ("sampler", "driver"):
         m.update(n_prop_steps=r.choice([1, 2, 3]), n_blocks=r.choice([1, 2, 3]), n_ene_blocks=r.choice([1, 2]))
@@ -77,6 +79,7 @@ def gen_cfg(seed, index, tier):
     m["mix"] = rng.choice([0.0, 0.1, 0.3])
     m["spin_dep"] = rng.random() < 0.6
     m["rdm1_kind"] = rng.choice(["own", "arbitrary"])
+    m["h1_antisym"] = rng.choice([0.0, 0.0, 0.0, 0.05])
     m["ene0"] = rng.choice([0.0, -1.3, 0.7])
     m["jax_seed"] = rng.randrange(1, 2**20)
     m["walker_noise"] = rng.choice([0.0, 0.1, 0.3])
@@ -112,6 +115,7 @@ def build(cfg, dt=None):
 
     spec = {k: cfg[k] for k in ("norb", "nelec", "nchol", "wt", "trial", "n_walkers", "n_batch", "n_exp_terms", "ham_seed", "strength", "mix", "spin_dep")}
     spec["dt"] = cfg["dt"] if dt is None else dt
+    spec["h1_antisym"] = cfg.get("h1_antisym", 0.0)
     s = lab.build_system(spec, harness=False)
     rs = np.random.RandomState((cfg["ham_seed"] + 99) % (2**32 - 1))
     s.ham_data_raw = dict(s.ham_data_raw)
